@@ -158,44 +158,83 @@ def _dispatch(run, P):
             produced.add(str_const(st.value))
     fd = P.func(f"{GRID}:Grid.from_dataset")
     handled = {}
-    for st in iter_stmts(fd.node.body):
-        if isinstance(st, ast.If) and isinstance(st.test, ast.Compare) and len(st.test.ops) == 1 and isinstance(st.test.ops[0], ast.Eq):
-            lit = str_const(st.test.comparators[0]) or str_const(st.test.left)
-            other = st.test.left if str_const(st.test.comparators[0]) else st.test.comparators[0]
-            if lit is None or not (isinstance(other, ast.Name) and other.id == "source_grid_spec"):
-                continue
-            calls = [c for s in st.body for c in ast.walk(s) if isinstance(c, ast.Call)]
-            raises = any(isinstance(s, ast.Raise) for s in st.body)
-            tgt = None
-            unpack2 = False
-            for s in st.body:
-                if isinstance(s, ast.Assign) and isinstance(s.value, ast.Call):
-                    r = P.resolve_expr(fd.module, s.value.func, fd)
-                    if isinstance(r, FuncInfo):
-                        tgt = r
-                        unpack2 = isinstance(s.targets[0], ast.Tuple) and len(s.targets[0].elts) == 2
-            handled[lit] = (tgt, unpack2, raises, st)
+    # the dispatch may live in from_dataset itself or in module-level helpers it calls (two levels)
+    scope, seen = [fd], {fd.key}
+    for _lvl in range(2):
+        for g in list(scope):
+            for c in ast.walk(g.node):
+                if isinstance(c, ast.Call):
+                    r = P.resolve_expr(g.module, c.func, g)
+                    if isinstance(r, FuncInfo) and r.module is fd.module and r.key not in seen and r.cls is None:
+                        seen.add(r.key)
+                        scope.append(r)
+
+    def reader_of(g, e):
+        """(FuncInfo | "opaque" | None): the reader a table value / called expression stands for"""
+        if isinstance(e, ast.Call) and (dotted(e.func) or [None])[-1] == "partial" and e.args:
+            return reader_of(g, e.args[0])
+        if isinstance(e, ast.Lambda) and isinstance(e.body, ast.Call):
+            return reader_of(g, e.body.func)
+        r = P.resolve_expr(g.module, e, g) if isinstance(e, (ast.Name, ast.Attribute)) else None
+        if isinstance(r, FuncInfo) and r.module.relpath.startswith("uxarray/io/"):
+            return r
+        return None
+    unpacks = any(isinstance(s, ast.Assign) and isinstance(s.targets[0], ast.Tuple) and len(s.targets[0].elts) == 2 and isinstance(s.value, ast.Call) for s in iter_stmts(fd.node.body))
+    for g in scope:
+        for st in iter_stmts(g.node.body):
+            if isinstance(st, ast.If) and isinstance(st.test, ast.Compare) and len(st.test.ops) == 1 and isinstance(st.test.ops[0], ast.Eq):
+                lit = str_const(st.test.comparators[0]) or str_const(st.test.left)
+                other = st.test.left if str_const(st.test.comparators[0]) else st.test.comparators[0]
+                if lit is None or not isinstance(other, ast.Name) or lit in handled:
+                    continue
+                if lit not in produced and lit not in FORMAT_READER:
+                    continue
+                raises = any(isinstance(s, ast.Raise) for s in st.body)
+                tgt = None
+                unpack2 = False
+                for s in st.body:
+                    if isinstance(s, (ast.Assign, ast.Return)) and isinstance(s.value, ast.Call):
+                        r = reader_of(g, s.value.func)
+                        if isinstance(r, FuncInfo):
+                            tgt = r
+                            unpack2 = (isinstance(s.targets[0], ast.Tuple) and len(s.targets[0].elts) == 2) if isinstance(s, ast.Assign) else (g is not fd and unpacks)
+                handled[lit] = (tgt, unpack2, raises, st, g)
+        # a table  {"<format>": reader | partial(reader, ...) | lambda ds: reader(ds, ...)}  looked up with the sniffed format
+        for d in ast.walk(g.node):
+            if isinstance(d, ast.Dict) and d.keys and all(k is not None and str_const(k) is not None for k in d.keys):
+                vals = [reader_of(g, v) for v in d.values]
+                if sum(isinstance(v, FuncInfo) for v in vals) < 2:
+                    continue
+                for k, v, ve in zip(d.keys, vals, d.values):
+                    if str_const(k) in handled:
+                        continue
+                    handled[str_const(k)] = (v if v is not None else "opaque", unpacks, False, ve, g)
     for lit in sorted(produced | set(FORMAT_READER)):
         c = f"dispatch[{lit}]"
         if lit not in produced:
             run.violation("F-TABLE/dispatch", c, where(sn), f'the format sniffer never yields "{lit}", a supported format: such files are not recognised')
             continue
         if lit not in handled:
-            run.violation("F-TABLE/dispatch", c, where(fd), f'_parse_grid_type can return "{lit}" but Grid.from_dataset has no branch for it (falls into "Unsupported Grid Format")')
+            if not handled:
+                run.incomplete("F-TABLE/dispatch", c, where(fd), "Grid.from_dataset neither branches on the sniffed format nor looks it up in a table of readers: dispatch idiom not recognised")
+            else:
+                run.violation("F-TABLE/dispatch", c, where(fd), f'_parse_grid_type can return "{lit}" but Grid.from_dataset has neither a branch nor a table entry for it (falls into "Unsupported Grid Format")')
             continue
-        tgt, unpack2, raises, st = handled[lit]
+        tgt, unpack2, raises, st, g = handled[lit]
         want = FORMAT_READER.get(lit)
         if want is None:
-            run.note("F-TABLE/dispatch", c, where(fd, st), f'"{lit}" is produced and handled but is not in the frozen format table')
+            run.note("F-TABLE/dispatch", c, where(g, st), f'"{lit}" is produced and handled but is not in the frozen format table')
             continue
-        if tgt is None:
-            run.violation("F-TABLE/dispatch", c, where(fd, st), f'branch for "{lit}" does not call a reader')
+        if tgt == "opaque":
+            run.incomplete("F-TABLE/dispatch", c, where(g, st), f'the entry for "{lit}" in the reader table is an expression this rule does not resolve to a reader: {norm(st)[:80]}')
+        elif tgt is None:
+            run.violation("F-TABLE/dispatch", c, where(g, st), f'branch for "{lit}" does not call a reader')
         elif not tgt.module.relpath.endswith(f"io/{want[0]}.py") or tgt.name != want[1]:
-            run.violation("F-TABLE/dispatch", c, where(fd, st), f'branch for "{lit}" calls {tgt.key}; the reader of that format is {want[0]}.{want[1]}')
+            run.violation("F-TABLE/dispatch", c, where(g, st), f'branch for "{lit}" calls {tgt.key}; the reader of that format is {want[0]}.{want[1]}')
         elif not unpack2:
-            run.violation("F-TABLE/dispatch", c, where(fd, st), f"result of {tgt.name} is not unpacked into (grid_ds, source_dims_dict)")
+            run.violation("F-TABLE/dispatch", c, where(g, st), f"result of {tgt.name} is not unpacked into (grid_ds, source_dims_dict)")
         else:
-            run.holds("F-TABLE/dispatch", c, where(fd, st), f'"{lit}" -> {tgt.key}')
+            run.holds("F-TABLE/dispatch", c, where(g, st), f'"{lit}" -> {tgt.key}')
     # sniffer tests: each literal is decided by a key of its own format (frozen)
     SNIFF = {"Exodus": {"coord", "coordx"}, "Scrip": {"grid_center_lon"}, "MPAS": {"verticesOnCell"}, "ESMF": {"maxNodePElement"}, "GEOS-CS": {"nf", "YCdim", "XCdim"}, "ICON": {"vertex_of_cell"}}
 
